@@ -247,7 +247,17 @@ def cosim_one(args):
 
             def closer():
                 try:
-                    ch.close(sc['code'], 'txt')
+                    if sc.get('via') == 'with':
+                        with ch:           # the context-manager exit is an application close (code 200)
+                            pass
+                    elif sc.get('via') == 'with-raise':
+                        try:
+                            with ch:
+                                raise KeyError('application error inside the with block')
+                        except KeyError:
+                            pass
+                    else:
+                        ch.close(sc['code'], 'txt')
                 except amqpstorm.AMQPError as why:
                     out.setdefault('close_errors', []).append(repr(why)[:60])
             ts = [ctx.spawn(closer, 'closer%d' % i) for i in range(sc['closers'])]
@@ -276,7 +286,11 @@ def cosim_one(args):
             def closer(times):
                 def fn():
                     for _ in range(times):
-                        conn.close()
+                        if sc.get('via') == 'with':
+                            with conn:
+                                pass
+                        else:
+                            conn.close()
                 return fn
             ts = [ctx.spawn(closer(n), 'closer%d' % i) for i, n in enumerate(sc['closers'])]
             for t in ts:
@@ -347,8 +361,12 @@ def check(rep):
         elif k == 'app-close':
             sc = {'kind': k, 'consumers': rng.randint(0, 4), 'closers': rng.choice([1, 1, 2]), 'again': rng.random() < 0.5,
                   'code': rng.choice([200, 320])}
+            if rng.random() < 0.3:
+                sc.update({'via': rng.choice(['with', 'with-raise']), 'code': 200})
         else:
             sc = {'kind': k, 'closers': [rng.choice([1, 1, 2]) for _ in range(rng.randint(1, 3))]}
+            if rng.random() < 0.25:
+                sc['via'] = 'with' 
             if rng.random() < 0.3:
                 sc['pending'] = rng.choice(['close', 'op'])
         jobs.append((sc, rng.randrange(1 << 30)))
